@@ -160,7 +160,7 @@ Definition check (c : case) : bool :=
   | _, _ => false
   end.
 Definition premise_good (c : case) : bool := let '(m, fm, x, r, e) := c in goodb m fm r.
-Definition premise_nofake (c : case) : bool := let '(m, fm, x, r, e) := c in nofakeb fm r.
+Definition premise_nofake (c : case) : bool := let '(m, fm, x, r, e) := c in nofakeb fm r && nofakeb_n fm r.
 Fixpoint failing (f : case -> bool) (i : nat) (l : list case) : list nat :=
   match l with [] => [] | c :: t => (if f c then [] else [i]) ++ failing f (S i) t end.
 """
